@@ -18,14 +18,15 @@ with / passes without the patch; suite passes) and run through the checks with
 `lib/seedtest.sh` (which restores the evidence file afterwards, so evidence
 always describes the unchanged tree):
 
-%d seeded changes in six rounds (C20 is not applicable). Every one is caught by the quick tier of a registered check
+%d seeded changes in seven rounds (C20 is not applicable). Every one is caught by the quick tier of a registered check
 (its property's own, except where the table names another) on the current tree. %d of them were missed or mishandled
 when first run. Most misses had one cause: the case space lacked the feature the change needs (a builder method, a
 clause, a value shape, a call order). In a few the check compared less than the property states — C09 compared the
 three renderings with one another but judged none on its own (C09-6, C09-7); C13 compared the partial flag of an
 index but not its predicate (C13-8); C14 parsed MySQL table options without comparing them (C14-8); C06 read the
 first WHERE of an upsert whichever clause it belonged to (C06-8); C18 compared value tuples in one representation
-only (C18-5) — and there the verdict was extended to what the property says, with a new key each time. No check was
+only (C18-5); C08 did not judge statements given a construct of the other dialect at all (C08-10); C10 recorded the
+error's message without reading it (C10-11); C14 ignored the IF NOT EXISTS guard of an ADD COLUMN action (C14-11) — and there the verdict was extended to what the property says, with a new key each time. No check was
 ever loosened. The right-hand column records what was added. That loop (independent change → miss → grow the
 specification and its generators → caught) is how most of §12.8 came about.
 
